@@ -491,7 +491,10 @@ def _main_body(a, prop, seed, mod, run):
         # SOURCE-TIE hook (end)
         if a.replay:
             payload = json.load(open(a.replay))
-            mod.replay(run, payload)
+            if payload.get("kind") == "impl-exception":   # replay = the same deterministic run
+                mod.run(run, Rng(payload.get("seed", seed), prop), payload.get("tier", run_tier))
+            else:
+                mod.replay(run, payload)
         else:
             mod.run(run, Rng(seed, prop), run_tier)
         # SOURCE-TIE hook (begin): validate translator + prelude (trusted) on the translatable functions; report lost ties
@@ -529,7 +532,28 @@ def _main_body(a, prop, seed, mod, run):
     except subprocess.TimeoutExpired:
         print(f"[{prop}] timeout")
         return 2
-    except Exception:
+    except Exception as e:
         traceback.print_exc()
+        # An exception that escapes from INSIDE the tree under test (innermost frame in REPO) on an input this harness
+        # generated: on the unchanged tree no generated input makes pyCSEP raise past the harness (every check exits 0
+        # there), so the implementation now fails on an input of the property's quantifier. That is a failing input
+        # (the run is deterministic in VERIF_SEED and tier: the replay re-runs it), not a harness error.
+        tb = traceback.extract_tb(e.__traceback__)
+        # library frames (numpy, scipy, pandas, stdlib) are attributed to the nearest caller that is pyCSEP or harness
+        inner = ""
+        for fr in reversed(tb):
+            rp = os.path.realpath(fr.filename)
+            if rp.startswith(os.path.realpath(REPO) + os.sep) or rp.startswith(os.path.realpath(VERIF) + os.sep):
+                inner = rp
+                break
+        if inner.startswith(os.path.realpath(REPO) + os.sep):
+            frames = [f"{os.path.relpath(f.filename, REPO) if f.filename.startswith(REPO) else os.path.basename(f.filename)}"
+                      f":{f.lineno} {f.name}" for f in tb[-8:]]
+            payload = dict(property=prop, kind="impl-exception", seed=seed, tier=a.tier,
+                           detail=f"pyCSEP raised {type(e).__name__}: {str(e)[:300]} on a generated input "
+                                  f"(re-run: VERIF_SEED={seed} ./check {prop} --tier {a.tier})", frames=frames)
+            path = write_replay(prop, seed, "exc", payload)
+            print(f"VIOLATION property={prop} replay={path}")
+            return 1
         print(f"[{prop}] harness error (exit 2, not a verdict)")
         return 2
